@@ -387,7 +387,13 @@ def emit_fn(data, it, ckey, C, tlog, anchors_used, canary=False):
     for m in re.finditer(rb"^[ \t]*//![^\n]*\n", body, re.M):
         ed.replace(f["body_open"] + m.start(), f["body_open"] + m.end(), b"\n")
         tlog.append({"t": "T12", "item": it["path"]})
-    # rename (e.g. trait method lifted into inherent impl gets a distinct name)
+    if C.flag(ckey, "skip_body"):
+        # contract proved in another unit: only the signature + contract are emitted here
+        ed2 = Edit()
+        ed2.ins = [i for i in ed.ins if i[0] <= f["body_open"]]
+        ed2.rep = [r_ for r_ in ed.rep if r_[1] <= f["body_open"]]
+        ed2.replace(f["body_open"], f["body_close"] + 1, "{ unimplemented!() }")
+        ed = ed2
     out = ed.apply(data, s, e)
     if canary:
         out = re.sub(rb"\bfn\s+" + f["name"].encode() + rb"\b", b"fn " + f["name"].encode() + b"_vxcanary", out, count=1)
@@ -477,6 +483,27 @@ def assemble_unit(unit_dir, repo=None, canary=False):
     repo = repo or REPO
     unit = tomllib.load(open(os.path.join(unit_dir, "unit.toml"), "rb"))
     C = Contracts(open(os.path.join(unit_dir, "contracts.vs")).read()) if os.path.exists(os.path.join(unit_dir, "contracts.vs")) else Contracts("")
+    # contracts proved in another unit and only *used* here (modular verification: callers see the contract, not the body)
+    wanted = set()
+    for src_ in unit.get("source", []):
+        wanted |= set(src_["items"])
+    for other in unit.get("contracts_from", []):
+        OC = Contracts(open(os.path.join(VERIF, "units", other, "contracts.vs")).read(), other + "/contracts.vs")
+        for item in OC.items():
+            if item in wanted and item not in C.sections and item not in C.flags:
+                if item in OC.sections:
+                    C.sections[item] = dict(OC.sections[item])
+                if item in OC.flags:
+                    C.flags[item] = dict(OC.flags[item])
+    for item in unit.get("assumed", []):
+        if item not in wanted:
+            raise Undecided("unit.toml: assumed item %s is not listed in a source" % item)
+        # keep only the contract, drop proof hints: the body is not verified here
+        sec = C.sections.get(item, {})
+        C.sections[item] = {k: v for k, v in sec.items() if k in ("spec", "attrs")}
+        C.flags.setdefault(item, {})["external"] = [[]]
+        C.flags[item]["skip_body"] = [[]]
+        C.flags[item].pop("t8", None); C.flags[item].pop("t10", None); C.flags[item].pop("foriter", None)
     tlog = []
     manifest = []
     pieces = []
@@ -485,6 +512,8 @@ def assemble_unit(unit_dir, repo=None, canary=False):
         header.insert(0, "#![feature(%s)]" % ", ".join(unit["features"]))
     pieces.append("\n".join(header) + "\n")
     pieces.append("use vstd::prelude::*;\nuse vstd::std_specs::iter::IteratorSpec;\n")
+    for u_ in unit.get("uses", []):
+        pieces.append("use %s;\n" % u_)
     for sh in unit.get("shims", []):
         p = os.path.join(VERIF, "shims", sh + ".rs")
         pieces.append("// ---- shim %s ----\n" % sh + open(p).read() + "\n")
@@ -583,7 +612,8 @@ def assemble_unit(unit_dir, repo=None, canary=False):
             body.append(txt + b"\n")
             manifest.append({"item": sel, "kind": it["kind"], "file": src["file"], "span": [it["start"], it["end"]],
                              "sha256_16": sha(raw), "anchors": sorted(anchors_used),
-                             "external": bool(C.flag(ckey, "external"))})
+                             "external": bool(C.flag(ckey, "external")),
+                             "proved_elsewhere": sel in unit.get("assumed", [])})
         if cur_impl is not None:
             body.append(b"}\n")
             cur_impl = None
